@@ -1005,6 +1005,8 @@ def project(v: View, *, keep, strip_place=True, strip_operation=False, drop_brea
             out.append((k,) + tuple(ev[2:]))
         elif k == "br.allow":
             out.append(ev[:4])
+        elif k in ("br.success", "br.failure", "br.cancel"):
+            out.append(ev[:-1])
         elif k == "budget":
             out.append(ev[:3])
         else:
